@@ -10,6 +10,8 @@ def obligations(tier):
                     bounds="all 256-bit private and blinding values; failure point fixed per obligation (every call site 0..21 and the entropy read are covered by the set of obligations)", stubs=["OpenSSL BN_* -> abstract group model (harness/C10/dh.c)", "crypto_entropy_read -> nondeterministic content"]))
     obs.append(dict(name="dh-sanitycheck", harness="dh.c", entry="h_sanity", unwind=300, unwindset=["memcmp.0:260"], backends=["cadical", "kissat"], timeout=to, replay="model",
                     claim="crypto_dh_sanitycheck accepts exactly the 2048-bit values numerically below p", bounds="all 2^2048 values", stubs=["memcmp: CBMC model"]))
+    obs.append(dict(name="dh-generate-wrapper", harness="gen.c", entry="h_generate", replace=["crypto_entropy_read:stub_entropy", "crypto_dh_generate_pub:stub_genpub"], unwind=40, backends=["cadical"], timeout=1800 if tier == "thorough" else 280,
+                    claim="crypto_dh_generate: private value = 32 bytes from crypto_entropy_read, public value computed from exactly those bytes; -1 iff either step fails; nothing computed from an unfilled private value", bounds="none", stubs=["crypto_entropy_read, crypto_dh_generate_pub -> recording stubs (own obligations)"]))
     return obs
 SELFTESTS = [dict(name="group14-constant", script="refs/selftest_group14.py", what="the modulus bytes in crypto_dh_group14.c equal the RFC 3526 group-14 prime computed from its defining formula")]
 TRUSTED = ["CBMC 6.11 C semantics", "cadical", "the abstract BIGNUM model: algebraic axioms only (x^a * x^b = x^(a+b) for a, b >= 0)"]
